@@ -37,6 +37,9 @@ C["C06"] = dict(
 C["C17"] = dict(
   text="Lean 4 theorems over a model of HostPort parse/print/pair encoding, parametric in the host parser and printers: for every host and port < 65536 the printed form parses back to the identical value (display_parse; the separator is the last colon whatever colons the host contains), parse-print-parse is stable, re-reading the stored [host, port] pair yields the identical value given the host text round-trips, and missing ports, empty or non-digit ports, ports >= 65536 and hosts the host parser rejects (empty, forbidden characters, unbracketed IPv6 - proved for the model's concrete parser) are rejected. Correspondence: hook on domains, every WHATWG IPv4 spelling, IPv6 from random groups in every compression/leading-zero/case/dotted-tail spelling, ports with leading zeros, malformed strings; expected normalised forms computed independently by the harness; CLI create --node / show --json / link --peer.",
   note="Trusted: Lean kernel; url::Host and std Ipv6Addr modelled on a sub-language and validated by the differential check; IDNA out of model.")
+C["C10"] = dict(
+  text="Lean 4 theorems over a model of MagnetLink::to_url (repaired encoder), the url crate's query pass and a standard query-string parser: for every infohash, name, tracker text, peer text (arbitrary byte strings) and index set, the printed query decodes - with or without +-as-space - to exactly xt, dn, one tr per tracker, one x.pe per peer and so (link_decodes, via the percent round trip pctDecode (escape s) = s and the absence of & + # and controls in escaped text); the url crate's pass is the identity on the assembled query; the own parser accepts only links carrying a 40-hex urn:btih topic; so is strictly ascending and holds exactly the given indices; the tracker list is duplicate-free, in first-appearance order, announce first. Correspondence: hook magnet_build/magnet_parse/trackers on adversarial names and tracker URLs, decoded by the harness's own parser in both + conventions and by imdl's parser; CLI torrent link --peer --select-only.",
+  note="Trusted: Lean kernel; url crate query encoding modelled and validated; Url/HostPort normalisation taken from the real code.")
 
 
 def main():
